@@ -35,15 +35,39 @@ var epochVarRe = regexp.MustCompile(`^H([1-9][0-9]*)!(.*)$`)
 
 const modPath = "github.com/DDP-Projekt/Kompilierer"
 
-func LoadVerifier(repo string, patterns []string, trustedDir string) (*Verifier, error) {
+// extraPkg: a Go package outside the repository's module that is generated on every run from repository sources
+// (the C runtime extracted by tools/c2go.py); its contracts live in a comment block of a file inside the repository.
+type extraPkg struct {
+	Dir       string // directory of the generated module
+	Contracts string // file with the /*@ ... @*/ blocks
+}
+
+func LoadVerifier(repo string, patterns []string, trustedDir string, extras ...extraPkg) (*Verifier, error) {
 	v := &Verifier{repo: repo, pkgByPath: map[string]*packages.Package{}, contracts: map[string]*ContractSet{},
 		pureAx: map[string]func() *Term{}, pureAxC: map[string]*Term{}, pseudoTP: map[string]*types.TypeParam{}}
 	env := os.Environ()
 	env = append(env, "GOFLAGS=-mod=mod", "GOPROXY=off")
-	cfg := &packages.Config{Mode: packages.LoadAllSyntax, Dir: repo, BuildFlags: []string{"-tags=verif"}, Env: env}
-	pkgs, err := packages.Load(cfg, patterns...)
-	if err != nil {
-		return nil, err
+	fset := token.NewFileSet()
+	cfg := &packages.Config{Mode: packages.LoadAllSyntax, Dir: repo, BuildFlags: []string{"-tags=verif"}, Env: env, Fset: fset}
+	var pkgs []*packages.Package
+	var err error
+	if len(patterns) > 0 {
+		pkgs, err = packages.Load(cfg, patterns...)
+		if err != nil {
+			return nil, err
+		}
+	}
+	extraContracts := map[string]string{}
+	for _, x := range extras {
+		xcfg := &packages.Config{Mode: packages.LoadAllSyntax, Dir: x.Dir, Env: env, Fset: fset}
+		xp, err := packages.Load(xcfg, "./...")
+		if err != nil {
+			return nil, err
+		}
+		for _, p := range xp {
+			extraContracts[p.PkgPath] = x.Contracts
+		}
+		pkgs = append(pkgs, xp...)
 	}
 	for _, p := range pkgs {
 		for _, e := range p.Errors {
@@ -71,6 +95,9 @@ func LoadVerifier(repo string, patterns []string, trustedDir string) (*Verifier,
 		}
 		dir := filepath.Dir(p.GoFiles[0])
 		f := filepath.Join(dir, "contracts_verif.go")
+		if xf, ok := extraContracts[path]; ok {
+			f = xf
+		}
 		if _, err := os.Stat(f); err == nil {
 			cs, err := LoadContractFile(f, false)
 			if err != nil {
@@ -754,6 +781,26 @@ func (v *Verifier) axiomsFor(r *Run, terms []*Term, extra []*Term) []*Term {
 		}
 		work = collect(added)
 	}
+	// counting functions
+	for round := 0; round < 2; round++ {
+		ca := countAxioms(append(append(append([]*Term(nil), terms...), extra...), out...))
+		n0 := len(out)
+		for _, a := range ca {
+			dup := false
+			for _, o := range out {
+				if o.String() == a.String() {
+					dup = true
+					break
+				}
+			}
+			if !dup {
+				out = append(out, a)
+			}
+		}
+		if len(out) == n0 {
+			break
+		}
+	}
 	// theory axioms
 	all := append(append(append([]*Term(nil), terms...), extra...), out...)
 	c := newSigCollector()
@@ -947,6 +994,13 @@ func (v *Verifier) VerifyFunc(cs *ContractSet, spec *FuncSpec) (res *FuncResult)
 	}
 	if m, ok := spec.Flags["mode"]; ok && strings.Contains(m, "overflow") {
 		r.overflow = true
+	}
+	if strings.HasSuffix(cs.PkgPath, "/lib/runtime/ddprt") {
+		// extracted C: exact conversions, integer type ranges, and every arithmetic overflow is an obligation
+		r.cmode = true
+		if m := spec.Flags["mode"]; !strings.Contains(m, "wrap") {
+			r.overflow = true
+		}
 	}
 	if !r.overflow {
 		r.note("machine integer arithmetic treated as mathematical in " + fname)
